@@ -33,7 +33,8 @@ ASSUMPTIONS = ["six 1.17 shim", "actor assumption", "SQLite atomic commit truste
 BUDGET = {"quick": (600, 150), "thorough": (20000, 2400)}
 FAULTS = ["upload_error", "upload_connection_lost", "crash_sql_boundary", "clean_restart", "srv_replay_first_message"]
 PROBES = ["unconfirmed_upload_reoffered", "confirmed_not_reoffered", "count_request_upload", "prekey_consumed",
-          "replay_refused", "crash_during_generation", "crash_during_confirmation", "signature_verified"]
+          "replay_refused", "crash_during_generation", "crash_during_confirmation", "signature_verified",
+          "two_uploads_outstanding", "delayed_upload_result"]
 SHRINK = ["events"]
 PA, PP = "4915160000001", "4915160000002"
 JA, JP = PA + "@s.whatsapp.net", PP + "@s.whatsapp.net"
@@ -56,7 +57,8 @@ def total(tier):
 
 
 EVENTS = ["login", "login", "restart", "crash_next_login", "count_request", "count_request", "peer_first", "peer_first",
-          "replay_first", "upload_error_next", "upload_lost_next", "upload_lost_next"]
+          "replay_first", "upload_error_next", "upload_lost_next", "upload_lost_next", "upload_hold_next", "upload_hold_next",
+          "release_held", "release_held"]
 
 
 def case(idx, tier, base):
@@ -98,6 +100,7 @@ class W(convo.World):
         self.tok = 0
         self.p_sessions = 0
         self.pending_firsts = []
+        self.held_uploads = []
         self.in_limbo = []      # uploads whose result was sent; did the client process it?
 
     def on_app_entity(self, client, e):
@@ -139,6 +142,11 @@ class W(convo.World):
             up["confirmed"] = "sent"
             self.in_limbo.append(up)
             return False       # the server model stores the keys and answers with a result
+        if mode == "held":
+            # the result is delayed: further uploads may become outstanding meanwhile
+            up["confirmed"] = None
+            self.held_uploads.append((cid, node, up))
+            return True
         if mode == "error":
             self.on_fault("upload_error", len(self.uploads), {})
             up["confirmed"] = False
@@ -300,6 +308,27 @@ class W(convo.World):
         else:
             a.post_op(lambda: a.app.connect())
 
+    def release_held(self):
+        """The delayed results are finally sent, oldest first (only on the connection they were asked on)."""
+        held, self.held_uploads = self.held_uploads, []
+        for cid, node, up in held:
+            c = self.server.conns.get(cid)
+            if c is None or not c["open"]:
+                up["confirmed"] = False      # the connection is gone: the result can never arrive
+                # the keys did reach the server
+                acc = self.server.account(JA)
+                d = acc.keys or {"pre": []}
+                d.update(identity=up["identity"], registration=up["registration"], type=b"\x05", skey=up["skey"])
+                for kid, kv in up["ids"].items():
+                    d["pre"].append((kid, kv))
+                acc.keys = d
+                continue
+            up["confirmed"] = "sent"
+            self.in_limbo.append(up)
+            self.probe("two_uploads_outstanding" if len(held) > 1 else "delayed_upload_result")
+            self.server.on_iq(cid, JA, node)
+        self.kick_server()
+
     def director(self):
         c03 = _S["c03"]
         k = self.k
@@ -356,6 +385,10 @@ class W(convo.World):
                     self.probe("count_request_upload")
             elif ev in ("upload_error_next", "upload_lost_next"):
                 self.next_upload_mode = "error" if ev == "upload_error_next" else "lost"
+            elif ev == "upload_hold_next":
+                self.next_upload_mode = "held"
+            elif ev == "release_held":
+                self.release_held()
             elif ev == "peer_first":
                 acc = self.server.accounts.get(JA)
                 if acc is not None and acc.keys and acc.keys["pre"] and self.ready.get("P"):
@@ -393,6 +426,10 @@ class W(convo.World):
             if not self.settle():
                 return
             self.check_store("after event %d (%s)" % (i, ev))
+        if not self.violations and self.held_uploads:
+            self.release_held()
+            if self.settle():
+                self.check_store("after releasing the delayed upload results")
         self.status = self.status or "done"
 
     def judge(self, kstatus):
